@@ -263,6 +263,8 @@ func c07Source(fns []*c07Fn) string {
 	var b strings.Builder
 	b.WriteString("package gp\n\ntype MyInt int\ntype MyStr string\ntype MySlice []int\ntype MyMap map[string]int\ntype Number interface{ ~int | ~int64 | ~float64 }\n")
 	b.WriteString("type R1[A any] struct{}\ntype R2[A, B any] struct{}\ntype R3[A, B, C any] struct{}\n")
+	b.WriteString("func First[T any](xs ...T) R1[T] { panic(0) }\nfunc Tag[T any](k string, xs ...T) R1[T] { panic(0) }\nfunc Sum[T ~int | ~float64](init T, xs ...T) R1[T] { panic(0) }\n")
+	b.WriteString("func Loader[T1 any, T2 any](p1 T1) T2 { panic(0) }\nfunc At[S ~[]E, E any](s S, i int) E { panic(0) }\nfunc SumOf[S ~[]E, E Number](s S) E { panic(0) }\nfunc Find[S ~[]E, E comparable](s S, e E) int { panic(0) }\nfunc Pair2[K comparable, V any](k K, v V) R2[K, V] { panic(0) }\n")
 	for _, f := range fns {
 		b.WriteString(f.decl() + "\n")
 	}
@@ -516,6 +518,7 @@ func runC07(a *runArgs) error {
 			n++
 		}
 	}
+	c07Extras(m, r, impB, impG, gpB, a.Tier)
 	cw.flush()
 	m.Cases = n
 	m.Distinct = len(distinct)
@@ -604,4 +607,190 @@ func c07Builder(imp types.Importer, gp *types.Package, f *c07Fn, args []c07Arg, 
 	cb.Call(len(args))
 	e := cb.InternalStack().Get(-1)
 	return e.Type, true, ""
+}
+
+
+// variadic type-parameter elements, and references to generic functions with partial explicit
+// type-argument lists that are not called: direct comparison of the builder with go/types
+func c07Extras(m *meta, r *rand.Rand, impB, impG types.Importer, gpB *types.Package, tier string) {
+	rounds := 40
+	if tier == "thorough" {
+		rounds = 400
+	}
+	typed := []struct{ name, typ string }{{"ai", "int"}, {"af", "float64"}, {"as", "string"}, {"am", "gp.MyInt"}, {"asl", "[]int"}, {"ass", "[]string"}, {"ams", "gp.MySlice"}}
+	paramSrc := ""
+	for i, t := range typed {
+		if i > 0 {
+			paramSrc += ", "
+		}
+		paramSrc += t.name + " " + t.typ
+	}
+	argPool := []string{"ai", "af", "as", "am", "1", "2.5", `"s"`}
+	constVal := map[string]any{"1": 1, "2.5": 2.5, `"s"`: "s"}
+	tyOf := func(src string) types.Type {
+		switch src {
+		case "int", "float64", "string", "bool":
+			return types.Universe.Lookup(src).Type()
+		case "[]int":
+			return types.NewSlice(types.Typ[types.Int])
+		case "[]string":
+			return types.NewSlice(types.Typ[types.String])
+		case "[]func()":
+			return types.NewSlice(types.NewSignatureType(nil, nil, nil, nil, nil, false))
+		}
+		return gpB.Scope().Lookup(strings.TrimPrefix(src, "gp.")).Type()
+	}
+	run := func(kind, stmt string, build func(pkg *gogen.Package, cb *gogen.CodeBuilder, ref gogen.PkgRef, vars map[string]*types.Var)) {
+		src := "func t(" + paramSrc + ") { " + stmt + " }"
+		// go/types
+		fset := token.NewFileSet()
+		f, err := parser.ParseFile(fset, "main.go", "package main\nimport \"gp\"\n"+src+"\n", 0)
+		goOK, goT := false, ""
+		if err == nil {
+			info := &types.Info{Types: map[ast.Expr]types.TypeAndValue{}, Defs: map[*ast.Ident]types.Object{}}
+			var first error
+			(&types.Config{Importer: impG, Error: func(e error) {
+				if first == nil && !strings.Contains(e.Error(), "declared and not used") {
+					first = e
+				}
+			}}).Check("main", fset, []*ast.File{f}, info)
+			goOK = first == nil
+			ast.Inspect(f, func(n ast.Node) bool {
+				if as, ok := n.(*ast.AssignStmt); ok && len(as.Rhs) == 1 && goOK {
+					goT = types.TypeString(info.TypeOf(as.Rhs[0]), func(p *types.Package) string { return p.Name() })
+				}
+				return true
+			})
+		}
+		// builder
+		bOK, bT, bErr := false, "", ""
+		func() {
+			var errs []string
+			defer func() {
+				if e := recover(); e != nil {
+					bOK, bErr = false, fmt.Sprint(e)
+				}
+				if bOK && len(errs) > 0 {
+					bOK, bErr = false, errs[0]
+				}
+			}()
+			pkg := gogen.NewPackage("", "main", &gogen.Config{Fset: token.NewFileSet(), Importer: impB, HandleErr: func(err error) { errs = append(errs, err.Error()) }})
+			ref := pkg.Import("gp")
+			vars := map[string]*types.Var{}
+			var ps []*types.Var
+			for _, t := range typed {
+				v := types.NewParam(token.NoPos, pkg.Types, t.name, tyOf(t.typ))
+				vars[t.name] = v
+				ps = append(ps, v)
+			}
+			cb := pkg.NewFunc(nil, "t", types.NewTuple(ps...), nil, false).BodyStart(pkg)
+			build(pkg, cb, ref, vars)
+			e := cb.InternalStack().Get(-1)
+			bT = types.TypeString(e.Type, func(p *types.Package) string { return p.Name() })
+			bOK = true
+		}()
+		m.DirectRuns++
+		m.Dist[kind]++
+		if strings.HasPrefix(stmt, "_ = gp.") && kind != "variadic type-parameter element" {
+			bT = goT // acceptance only
+		}
+		if goOK != bOK || (goOK && goT != bT) {
+			gs, bs := "rejected", "rejected: "+c06Short(bErr)
+			if goOK {
+				gs = goT
+			}
+			if bOK {
+				bs = bT
+			}
+			dv := directViolation{What: fmt.Sprintf("%s: builder %s, go/types %s", stmt, bs, gs), Replay: map[string]any{"kind": kind, "statement": stmt, "builder": bs, "go": gs}}
+			if kind == "variadic type-parameter element" && !bOK && goOK && c07MixedConstFirst(stmt) {
+				one := 1
+				dv.Class = &one
+				m.Known["1"]++
+			}
+			m.Direct = append(m.Direct, dv)
+		}
+	}
+	for k := 0; k < rounds; k++ {
+		// (1) variadic
+		fn := []string{"First", "Tag", "Sum"}[r.Intn(3)]
+		n := 1 + r.Intn(3)
+		var args []string
+		switch fn {
+		case "Tag":
+			args = append(args, `"k"`)
+		case "Sum":
+			args = append(args, []string{"ai", "af", "am", "1", "2.5"}[r.Intn(5)])
+		}
+		for i := 0; i < n; i++ {
+			args = append(args, argPool[r.Intn(len(argPool))])
+		}
+		stmt := fmt.Sprintf("_ = gp.%s(%s)", fn, strings.Join(args, ", "))
+		run("variadic type-parameter element", stmt, func(pkg *gogen.Package, cb *gogen.CodeBuilder, ref gogen.PkgRef, vars map[string]*types.Var) {
+			cb.Val(ref.Ref(fn))
+			for _, a := range args {
+				if v, ok := vars[a]; ok {
+					cb.Val(v)
+				} else if a == `"k"` {
+					cb.Val("k")
+				} else {
+					cb.Val(constVal[a])
+				}
+			}
+			cb.Call(len(args))
+		})
+		// (2) partial explicit type arguments, the function is referenced but not called
+		type ref struct {
+			fn    string
+			targs []string
+		}
+		refs := []ref{{"Loader", []string{"int"}}, {"Loader", []string{"int", "string"}}, {"At", []string{"[]int"}}, {"At", []string{"int"}}, {"SumOf", []string{"[]int"}}, {"SumOf", []string{"[]string"}},
+			{"SumOf", []string{"gp.MySlice"}}, {"Find", []string{"[]string"}}, {"Find", []string{"[]func()"}}, {"Pair2", []string{"string"}}, {"Pair2", []string{"[]int"}}, {"Pair2", []string{"int", "bool"}}}
+		rf := refs[r.Intn(len(refs))]
+		form := []string{"_ = %s", "v := %s; _ = v"}[r.Intn(2)]
+		expr := fmt.Sprintf("gp.%s[%s]", rf.fn, strings.Join(rf.targs, ", "))
+		stmt = fmt.Sprintf(form, expr)
+		define := strings.HasPrefix(form, "v")
+		run("partial instantiation, not called", stmt, func(pkg *gogen.Package, cb *gogen.CodeBuilder, ref gogen.PkgRef, vars map[string]*types.Var) {
+			if define {
+				cb.DefineVarStart(token.NoPos, "v")
+			} else {
+				cb.VarRef(nil)
+			}
+			cb.Val(ref.Ref(rf.fn))
+			for _, t := range rf.targs {
+				cb.Typ(tyOf(t))
+			}
+			cb.Index(len(rf.targs), 0)
+			if define {
+				cb.EndInit(1)
+				cb.Val(cb.Scope().Lookup("v")) // the type the builder gave v
+			} else {
+				cb.Assign(1)
+				cb.Val(0) // nothing to observe besides acceptance
+			}
+		})
+	}
+}
+
+// the first variadic argument is an untyped constant and a later one has another (default) type:
+// the builder takes the element type from the first argument (known finding C07-a)
+func c07MixedConstFirst(stmt string) bool {
+	i := strings.Index(stmt, "(")
+	args := strings.Split(strings.TrimSuffix(stmt[i+1:], ")"), ", ")
+	if strings.Contains(stmt, "gp.Tag(") || strings.Contains(stmt, "gp.Sum(") {
+		if len(args) < 2 {
+			return false
+		}
+		whole := args
+		args = args[1:]
+		if len(args) < 2 && !strings.Contains(stmt, "gp.Sum(") {
+			return false
+		}
+		_ = whole
+	} else if len(args) < 2 {
+		return false
+	}
+	isConst := func(a string) bool { return a == "1" || a == "2.5" || a == `"s"` }
+	return isConst(args[0])
 }
